@@ -359,3 +359,12 @@ def q7_closed_table(ctx):
 
 
 RULES = [('Q7', q7_closed_table), ('Q1', q1_formulas), ('Q2', q2_money), ('Q3', q3_routing), ('Q4', q4_fields), ('Q5', q5_spellings), ('Q6', q6_reader)]
+
+
+def q8_unique_fields(ctx):
+    """Q8 a pattern that names two fields alike loses one of the matched tokens (shared rule)"""
+    from ..common import unique_field_names
+    unique_field_names(ctx, 'Q8', ('number_on', 'number_of', 'number_off', 'find_numbers_percent', 'find_total_from_percent', 'percent_calculator'), floor=10)
+
+
+RULES.append(('Q8', q8_unique_fields))
